@@ -783,7 +783,12 @@ func (s *Solver) frameActive(id int) bool {
 	return false
 }
 
-var qnameRe = regexp.MustCompile(`q_[A-Za-z0-9]+_\d+`)
+var qnameRe = regexp.MustCompile(`\bq_[A-Za-z0-9]+_\d+`)
+
+var boundRe = regexp.MustCompile(`(^|[ (])q_[A-Za-z0-9]+_\d+`)
+
+// hasBoundVar: does the term mention a quantifier-bound variable (named q_<name>_<n> by the spec evaluator)?
+func hasBoundVar(t string) bool { return boundRe.MatchString(t) }
 
 func normaliseBound(t string) string {
 	seen := map[string]string{}
@@ -818,4 +823,12 @@ func (s *Solver) AssertOnce(t string) {
 	}
 	s.Assert(t)
 	s.defs[key] = defEntry{"", s.frames[len(s.frames)-1].id}
+}
+
+func (s *Solver) nlines() int {
+	n := 0
+	for _, f := range s.frames {
+		n += len(f.lines)
+	}
+	return n
 }
